@@ -219,6 +219,8 @@ impl PollCase {
         let script = self.script.clone();
         let real_ms = self.real_latency_ms;
         let noise_headers = self.glue & 4 == 4;
+        // glue bits 3-4: transport failures carry a source chain (an I/O timeout, a connection reset, a non-I/O error)
+        let err_chain = ((self.glue >> 3) & 3) as u64;
         let lat = self.latency_ms as i128 * 1_000_000;
         let w_http = world.clone();
         let on_call = move |r: HttpRequest| -> Result<HttpResponse, FakeErr> {
@@ -242,7 +244,7 @@ impl PollCase {
                 panic!("runaway poll loop: {} requests for a script of {}", i, script.len());
             }
             // past the end of the script the server keeps saying access_denied
-            let reply = reply_for(script.get(i).copied().unwrap_or(4));
+            let reply = reply_for(script.get(i).copied().unwrap_or(4)).map_err(|e| FakeErr(e.0 | (err_chain << 8)));
             // glue bit 2: every reply also carries headers no property gives a meaning to (Retry-After among them: the wait
             // is governed by the interval and the slow_down rule alone)
             if noise_headers {
@@ -353,6 +355,18 @@ impl CaseInput for PollCase {
                 pend_http: 1, pend_sleep: 1, bad_uri: false, glue: 0, real_latency_ms: 1100,
             };
         }
+        if idx == 4 || idx == 5 {
+            // the long haul: a user who approves after many thousands of polls (12 h lifetime, 1 s interval) — the loop has no
+            // other bound than the deadline
+            let mut script = vec![0u8; 10_400];
+            script[7_000] = 1; // one slow_down on the way
+            script.push(3);
+            return PollCase {
+                variant: (idx % 2) as u8, interval: Some(Some(1)), expires_in: 43_200, timeout: None, max_backoff: None,
+                script, t0_ns: 1_700_000_000 * NS, clock_mode: 0, offsets_ns: vec![], latency_ms: 0,
+                pend_http: 0, pend_sleep: 0, bad_uri: false, glue: 0, real_latency_ms: 0,
+            };
+        }
         let n = *r.pick(&[0u64, 1, 1, 2, 3, 4, 6, 9]);
         let mut script: Vec<u8> = (0..n).map(|_| *r.pick(&[0u8, 0, 0, 1, 1, 1, 2, 2, 2, 20, 21, 22, 23, 24])).collect();
         script.push(*r.pick(&[3u8, 3, 3, 4, 5, 6, 7, 8, 9, 10, 11, 12, 13, 14, 15, 16]));
@@ -421,7 +435,7 @@ impl CaseInput for PollCase {
             pend_http: r.below(4) as u32,
             pend_sleep: r.below(4) as u32,
             bad_uri: r.chance(1, 25),
-            glue: r.below(8) as u8,
+            glue: r.below(32) as u8,
             real_latency_ms: 0,
         }
     }
@@ -468,7 +482,7 @@ impl CaseInput for PollCase {
                         pend_http: (ei % 3) as u32,
                         pend_sleep: (ei % 2) as u32,
                         bad_uri: false,
-                        glue: (ei % 8) as u8,
+                        glue: (ei % 32) as u8,
                         real_latency_ms: 0,
                     });
                 }
@@ -640,6 +654,16 @@ impl CaseInput for PollCase {
         let mut v = Vec::new();
         if self.real_latency_ms > 0 {
             // every re-execution costs seconds of real time: the case is small already
+            return v;
+        }
+        if self.script.len() > 200 {
+            // a long script: drop halves / quarters of the non-final part, never one reply at a time
+            let body = self.script.len() - 1;
+            for (a, b) in [(0, body / 2), (body / 2, body), (0, body / 4), (body / 4, body / 2), (body / 2, 3 * body / 4), (3 * body / 4, body)] {
+                let mut c = self.clone();
+                c.script.drain(a..b);
+                v.push(c);
+            }
             return v;
         }
         for i in 0..self.script.len().saturating_sub(1) {
